@@ -723,6 +723,89 @@ def gen_seq_specs(ctx):
     return out
 
 
+
+# ------------------------------------------------------------------ homogeneity: re-run on rescaled input
+def scaled_spec(spec, e):
+    """the same call with the data multiplied by the exact power of two 2^e (signals, innovations) and
+    autocorrelations / variances by 2^(2e); None when the spec has no scalable form"""
+    c, f = 2.0 ** e, 4.0 ** e
+    k = spec["kind"]
+    sp = dict(spec)
+
+    def sc(lst, g):
+        return [hxc(uhxc(q) * g) for q in lst]
+    if k == "est":
+        if spec.get("variant") == "int" or spec.get("rxx_dtype") == "int":
+            if e < 0:
+                return None
+            c, f = 2.0 ** 8, 4.0 ** 8         # integer dtypes: an integer factor
+        if spec.get("x") is not None:
+            sp["x"] = sc(spec["x"], c)
+        if spec.get("rxx") is not None:
+            sp["rxx"] = sc(spec["rxx"], f)
+        return sp, f
+    if k == "psd":
+        sp["sigma"] = hx(uhx(spec["sigma"]) * f)
+        return sp, f
+    if k == "gen":
+        sp["sigma"] = hx(uhx(spec["sigma"]) * f)
+        return sp, c
+    return None
+
+
+def rel_close(a, b, tol=1e-11):
+    a, b = np.asarray(a), np.asarray(b)
+    if a.shape != b.shape:
+        return False
+    m = float(np.max(np.abs(b))) if b.size else 0.0
+    return bool(np.all(np.isfinite(a))) and float(np.max(np.abs(a - b))) <= tol * m if b.size else True
+
+
+def oracle_homog(spec, obs, e):
+    """what the property implies under rescaling: coefficients unchanged, sigma and the spectrum scale with the
+    variance, the simulated signal with sqrt(sigma).  An absolute threshold anywhere in the code fails this."""
+    r = scaled_spec(spec, e)
+    if r is None:
+        return None
+    sp, g = r
+    o2 = RUN[spec["kind"]](sp)
+    k = spec["kind"]
+    key = "C10/homogeneity/%s" % {"est": "AR_est", "psd": "AR_psd", "gen": "ar_generator"}[k]
+    what = None
+    if k == "est":
+        for name in ("ld", "yw"):
+            a, b = obs[name], o2[name]
+            if ("err" in a) != ("err" in b):
+                what = "%s raises on one scale only" % name
+            elif "err" not in a:
+                ak1 = np.array([uhxc(q) for q in a["ak"]]); ak2 = np.array([uhxc(q) for q in b["ak"]])
+                if not rel_close(ak2, ak1):
+                    what = "%s coefficients change when the data are multiplied by 2^%d (max diff %.3g)" % (name, e, float(np.max(np.abs(ak2 - ak1))))
+                elif not rel_close(uhx(b["sigma"]), uhx(a["sigma"]) * g):
+                    what = "%s sigma does not scale with the variance (x 2^%d): %.17g vs %.17g" % (name, e, uhx(b["sigma"]), uhx(a["sigma"]) * g)
+            if what:
+                break
+    elif k == "psd":
+        if ("err" in obs) != ("err" in o2):
+            what = "raises on one scale only"
+        elif "err" not in obs:
+            p1 = np.array([uhx(v) for v in obs["psd"]]); p2 = np.array([uhx(v) for v in o2["psd"]])
+            if obs["w"] != o2["w"] or not rel_close(p2, p1 * g):
+                what = "spectrum does not scale with sigma (x 4^%d)" % e
+    else:
+        if ("err" in obs) != ("err" in o2):
+            what = "raises on one scale only"
+        elif "err" not in obs:
+            u1 = np.array([uhxc(q) for q in obs["u"]]); u2 = np.array([uhxc(q) for q in o2["u"]])
+            if obs["v"] != o2["v"] or not rel_close(u2, u1 * g):
+                what = "simulated signal does not scale with sqrt(sigma) (x 2^%d)" % e
+    if what:
+        f = Fail(key, what, None, "scale-equivariant result")
+        f.replay = {"entry_point": key, "scale_exponent": e}
+        return f
+    return None
+
+
 RUN = {"est": run_est, "psd": run_psd, "gen": run_gen, "seq": run_seq}
 ORACLE = {"est": oracle_est, "psd": oracle_psd, "gen": oracle_gen, "seq": oracle_seq}
 
@@ -787,6 +870,19 @@ def run(ctx):
                 pass
             if ctx.report_fail(f, Case("", {"spec": spec, "observed": obs})):
                 nfail += 1
+    # homogeneity: every call re-run on the input rescaled by 2^-45 and 2^+35 (variances by the square)
+    nh = 0
+    for i, (spec, obs) in enumerate(results):
+        if spec["kind"] == "seq":
+            continue
+        for e in (-45, 35):
+            if abs(spec.get("scale_exp", 0) + e) > 70:
+                continue
+            nh += 1
+            f = oracle_homog(spec, obs, e)
+            if f is not None:
+                ctx.report_fail(f, Case("", {"spec": spec, "scale_exponent": e}))
+    ctx.extra["homogeneity_reruns"] = nh
     # purity: a sample of earlier calls repeated at the end of the run must give bit-identical results
     idx = [i for i, (sp, _) in enumerate(results) if not (sp["kind"] == "gen" and sp.get("v") is None and False)]
     sample = ctx.rng.sample(idx, min(len(idx), ctx.scale(60, 200)))
@@ -807,7 +903,8 @@ def run(ctx):
     ctx.extra["oracle_only_inputs"] = sum(1 for sp, _ in results if sp.get("oracle_only"))
     ctx.extra["signal_lengths_checked_by_oracle"] = "every N in 16..130 + %d lengths in 131..4096 (powers of two +-1, 5-smooth, primes, seeded)" % len(
         {sp["N"] for sp, _ in results if sp["kind"] == "est" and sp.get("N", 0) > 130})
-    ctx.extra["rule"] = ("call histories: fits interleaved with in-place refill / scaling / de-meaning of one array object, both estimators, "
+    ctx.extra["rule"] = ("homogeneity: every call re-run with the data multiplied by 2^-45 and 2^+35 (rxx / sigma by the square): "
+                         "coefficients unchanged, sigma / spectrum / simulated signal scale exactly; call histories: fits interleaved with in-place refill / scaling / de-meaning of one array object, both estimators, "
                          "each judged against the current contents; a sample of all calls repeated at the end must be bit-identical; "
                          "oracle (independent: directly summed autocorrelation) on every signal length 16..130 and ~30 lengths up to 4096, "
                          "orders up to min(16, N/4), data scaled by 2^-60..2^40, strided / integer-dtype / keyword-call variants, "
